@@ -387,6 +387,7 @@ Proof.
   destruct (find_cdp e s o t) as [c0|] eqn:Ef; [|discriminate].
   destruct (get_cp e t) as [cp|] eqn:Hcp; [|discriminate].
   destruct (find_cdp_stored _ _ _ _ _ _ Hk Ef Hcp) as [Ht Hst].
+  destruct (mstat s (cp_spot cp) && mstat s (cp_liqm cp)) eqn:Em; [|discriminate]. cbn [negb].
   destruct (Nat.eqb pd (d_usdx e)); [|discriminate]. cbn [negb].
   destruct (debt_limit_ok e s t cp x); [|discriminate]. cbn [negb].
   destruct (sync_interest e s cp c0) as [s1 c| |] eqn:Es; try discriminate.
